@@ -1,44 +1,3 @@
-/-! GENERATED by tools/statefacts from runner.go and markup/line_parser.go — do not edit -/
-namespace Ysgo.Generated
-/-- the fields of DialogueRunner with their types -/
-def runnerFields : List (String × String) := [("dialogue", "*tree.Dialogue"), ("statementsToRun", "container.Stack[*statementQueue]"), ("lastStatement", "*tree.Statement"), ("variableStorer", "variable.Storer"), ("functionStorer", "*functionStorer"), ("commandStorer", "*commandStorer"), ("commandErrChan", "chan error"), ("lineParser", "markup.LineParser"), ("currentNode", "string"), ("visitedNodes", "map[string]int"), ("variableSnapshot", "map[string]variable.Value")]
-/-- field ↦ the functions that write it directly (assignment, increment or decrement, index assignment, delete/clear, address taken, constructor literal) -/
-def runnerWrites : List (String × List String) := [("dialogue", ["NewDialogueRunner"]),
-  ("statementsToRun", ["NewDialogueRunner"]),
-  ("lastStatement", ["Next", "RestoreAt"]),
-  ("variableStorer", ["NewDialogueRunner"]),
-  ("functionStorer", ["NewDialogueRunner"]),
-  ("commandStorer", ["NewDialogueRunner"]),
-  ("commandErrChan", ["Next", "RestoreAt", "executeCommandStatement"]),
-  ("lineParser", []),
-  ("currentNode", ["NewDialogueRunner", "RestoreAt", "executeJumpStatement"]),
-  ("visitedNodes", ["NewDialogueRunner", "RestoreAt", "incrementNodeTrackingIfAllowed"]),
-  ("variableSnapshot", ["NewDialogueRunner", "RestoreAt", "executeJumpStatement"])]
-/-- field ↦ function ↦ the methods called on the field there -/
-def runnerCalls : List (String × List (String × List String)) := [("dialogue", [("RestoreAt", ["FindNode"]), ("executeJumpStatement", ["FindNode"]), ("incrementNodeTrackingIfAllowed", ["FindNode"])]),
-  ("statementsToRun", [("Next", ["Clear", "Peek", "Pop", "Push", "Size"]), ("RestoreAt", ["Clear", "Push"]), ("executeIfStatement", ["Push"]), ("executeJumpStatement", ["Clear", "Push"])]),
-  ("lastStatement", []),
-  ("variableStorer", [("RestoreAt", ["Clear", "SetBooleanValue", "SetNumberValue", "SetStringValue"]), ("executeJumpStatement", ["GetValues"]), ("executeSetStatement", ["GetValue", "SetBooleanValue", "SetNumberValue", "SetStringValue"])]),
-  ("functionStorer", [("AddFunction", ["addFunction"]), ("ConvertAndAddFunction", ["convertAndAddFunction"]), ("executeCallStatement", ["call"])]),
-  ("commandStorer", [("AddCommand", ["addCommand"]), ("ConvertAndAddCommand", ["convertAndAddCommand"]), ("executeCommandStatement", ["call"])]),
-  ("commandErrChan", []),
-  ("lineParser", [("textElementsToMarkup", ["ParseMarkup"])]),
-  ("currentNode", []),
-  ("visitedNodes", []),
-  ("variableSnapshot", [])]
-/-- the fields of markup.LineParser -/
-def lineParserFields : List String := ["input", "reader", "sourcePosition", "position"]
-/-- the fields assigned unconditionally on entry of ParseMarkup, before anything is read -/
-def lineParserResetOnEntry : List String := ["input", "reader", "sourcePosition", "position"]
-/-- the maps of variable.InMemoryStorer -/
-def storerMaps : List String := ["numbers", "booleans", "strings"]
-/-- the maps with their Go types -/
-def storerMapTypes : List (String × String) := [("numbers", "map[string]float64"), ("booleans", "map[string]bool"), ("strings", "map[string]string")]
-/-- method ↦ what it does to the maps: (set | delete | clear | reset, map) in source order -/
-def storerOps : List (String × List (String × String)) := [("Clear", [("reset", "numbers"), ("reset", "booleans"), ("reset", "strings")]),
-  ("SetBooleanValue", [("delete", "numbers"), ("delete", "strings"), ("set", "booleans")]),
-  ("SetNumberValue", [("delete", "booleans"), ("delete", "strings"), ("set", "numbers")]),
-  ("SetStringValue", [("delete", "numbers"), ("delete", "booleans"), ("set", "strings")])]
-/-- FromReader: calls on the lexer / token stream / parser, the early return on collected syntax errors, the walk — in source order -/
-def loadSteps : List String := ["lexer.RemoveErrorListeners", "lexer.AddErrorListener(errors)", "parser.RemoveErrorListeners", "parser.AddErrorListener(errors)", "parser.Dialogue", "return-if-errors", "walk"]
-end Ysgo.Generated
+-- extractor failed
+#eval (panic! "extractor statefacts failed" : Nat)
+example : False := by trivial
